@@ -17,10 +17,13 @@ TECH = {
     "C16": "reference-model oracle (divmod) over kernel event log with hook-counted branch coverage of the multi-word division",
     "C17": "consistency monitor over event groups (every impl named explicitly in the driver)",
     "C18": "monitor over generated programs: rustc + proc-macro outcome vs runtime parser outcome",
-    "C19": "per-thread history checker over multi-threaded event logs (native stress, Miri many-seeds, TSan)",
+    "C19": "per-thread history checker over multi-threaded event logs (native stress, thread churn, thread-exit probes, fresh-process small-state workloads, Miri many-seeds, TSan, environment-independence monitor)",
     "C20": "differential monitor: same workload under N build profiles, logs compared line by line and against the oracles",
 }
 DEFAULT_TECH = "runtime monitoring: reference-model oracle (exact big-int arithmetic) over the driver's event log, dev + release builds"
+COMMON_TECH = ("; common to all line-protocol checks: temporal-locality request sequences (state carried between calls), "
+               "cold-start monitor (8 threads' first calls in a fresh process), environment-independence monitor "
+               "(LD_PRELOAD getenv logger), hook-counted branch coverage")
 
 NOTE = ("Trusted base: the Python oracles in vf/oracle.py and vf/props/*.py (self-checked on every run against libmpdec / "
         "CPython float division / the nearest-neighbour definition), the line-protocol driver /verif/driver (records, "
@@ -56,7 +59,7 @@ def main():
             "engine": "vf",
             "level_claimed": {"category": "exploration", "text": text, "design_ref": "DESIGN.md section 2, " + pid},
             "level_note": NOTE,
-            "technique": TECH.get(pid, DEFAULT_TECH),
+            "technique": TECH.get(pid, DEFAULT_TECH) + ("" if pid in ("C18", "C19") else COMMON_TECH),
         })
     man = {
         "version": 1,
